@@ -295,6 +295,17 @@ def simulate_transform(source_fn):
 ##########
 
 
+def _makes_choices(gen_fn: GenerativeFunction[Any], args: tuple[Any, ...]) -> bool:
+    """Whether this call can make any random choice. A callee that makes none (a
+    deterministic helper, a zero-length map, ...) leaves no entry in its caller's trace,
+    so `assess` has nothing to ask for at its address."""
+    choices = jax.eval_shape(
+        lambda key: gen_fn.simulate(key, args).get_choices(),
+        jnp.array([0, 0], dtype=jnp.uint32),
+    )
+    return not choices.static_is_empty()
+
+
 @dataclass
 class AssessHandler(StaticHandler):
     def __init__(self, choice_map_sample: ChoiceMap):
@@ -315,7 +326,7 @@ class AssessHandler(StaticHandler):
         args: tuple[Any, ...],
     ):
         submap = self.get_subsample(addr)
-        if submap.static_is_empty():
+        if submap.static_is_empty() and _makes_choices(gen_fn, args):
             raise MissingAddress(addr)
         (score, v) = gen_fn.assess(submap, args)
         self.score += score
